@@ -65,6 +65,7 @@ func main() {
 			return 1
 		}
 		if *keysOnly {
+			rep.Finalize(prog)
 			for _, o := range rep.Obligations {
 				if o.Status != engine.Discharged {
 					fmt.Printf("KEY %s %s\n", o.Status, o.Key)
